@@ -1251,3 +1251,25 @@ MUTANTS += [
       edits=[('src/bls12_381/fq6.cpp', 'this->c1.multiply(this->c1, coeff_c1);', 'this->c1.multiply(this->c1, coeff_c2);'),
              ('src/bls12_381/fq6.cpp', 'this->c2.multiply(this->c2, coeff_c2);', 'this->c2.multiply(this->c2, coeff_c1);')]),
 ]
+
+# ---- round 11 seeds
+MUTANTS += [
+ dict(name='seed-C02-negate-in-place-zero', prop='C02', patch='seeded/C02-negate-in-place-zero-test-after-write/patch.diff', expect='VIOLATION property=C02'),
+ dict(name='seed-C03-portable-redc-zero-round', prop='C03', patch='seeded/C03-portable-redc-zero-round-skips-carry/patch.diff', expect='differs from T + U*p'),
+ dict(name='c03-benign-redc-zero-round-carry-kept', prop='C03', benign='noverdict', expect='', patch='selftest/fixes/benign-c03-redc-zero-round-carry-kept.patch'),
+ dict(name='seed-C06-g1-short-scalar-endomorphism', prop='C06', patch='seeded/C06-g1-short-scalar-through-endomorphism/patch.diff', expect='R-DISPATCH'),
+ dict(name='seed-C09-identity-wrong-form', prop='C09', patch='seeded/C09-decode-identity-accepted-in-wrong-form/patch.diff', expect='VIOLATION property=C09'),
+ dict(name='seed-C11-resamplekey-hexp-by-position', prop='C11', patch='seeded/C11-resamplekey-hexp-by-position/patch.diff', expect='VIOLATION property=C11'),
+ dict(name='seed-C13-sign-early-stop', prop='C13', patch='seeded/C13-sign-early-stop-counter/patch.diff', expect='fill loop can end before'),
+ dict(name='seed-C14-adjust-skip-equal-idx', prop='C14', patch='seeded/C14-adjust-nondelegable-skips-equal-idx-copy/patch.diff', expect='VIOLATION property=C14'),
+ dict(name='seed-C15-params-bound-before-hsig', prop='C15', patch='seeded/C15-params-unmarshal-bound-before-hsig/patch.diff', expect='VIOLATION property=C15'),
+ dict(name='seed-C17-wordwise-big-endian', prop='C17', patch='seeded/C17-wordwise-big-endian-overlay/patch.diff', expect='VIOLATION property=C17'),
+ dict(name='seed-C18-gt-exp-pointer-table-alias', prop='C18', patch='seeded/C18-exponentiate-gt-pointer-table-aliases-output/patch.diff', expect='VIOLATION property=C18'),
+ # the signer's fill loop may stop when the attribute list is exhausted
+ dict(name='c13-benign-fill-loop-stops-at-list-end', prop='C13', benign=True, expect='',
+      edits=[('src/wkdibe/api.cpp', 'for (int i = 0; i != sk.l; i++) {\n                while (k != attrs->length && attrs->attrs[k].idx < sk.b[i].idx) {',
+              'for (int i = 0; i != sk.l && k != attrs->length; i++) {\n                while (k != attrs->length && attrs->attrs[k].idx < sk.b[i].idx) {')]),
+ dict(name='c13-fill-loop-stops-one-early', prop='C13', expect='fill loop can end before',
+      edits=[('src/wkdibe/api.cpp', 'for (int i = 0; i != sk.l; i++) {\n                while (k != attrs->length && attrs->attrs[k].idx < sk.b[i].idx) {',
+              'for (int i = 0; i + 1 < sk.l; i++) {\n                while (k != attrs->length && attrs->attrs[k].idx < sk.b[i].idx) {')]),
+]
